@@ -460,6 +460,11 @@ def run(ctx):
     exe = vlib.harness_build(["c19"])["c19"]
     vlib.coq_make(["Conn/Dispatch.vo"])
     drv = vlib.ocaml_build("c19")
+    try:
+        vlib.coq_make(["Conn/DispatchExamples.vo"])           # non-vacuity examples next to the theorems
+        ctx.extra["examples"] = "Conn/DispatchExamples.v builds"
+    except vlib.BrokenTie as bt:
+        ctx.tie_broken("the non-vacuity examples Conn/DispatchExamples.v no longer check", bt.detail)
 
     c_m, c_mm, c_run = corpus_cases()
     ctx.count("corpus", len(c_m) + len(c_mm) + len(c_run))
